@@ -146,6 +146,8 @@ struct History
 {
     long h = 0;
     std::vector<Op> ops;
+    int random_len = 0;       // > 0: the driver itself draws this many operations (plan line "R <len> <seed>")
+    unsigned random_seed = 0;
 };
 
 struct Progress
@@ -1132,6 +1134,8 @@ struct Driver
           << "],\"itab\":" << itab << ",\"cmp\":" << cmp << ",\"obs\":" << all_obs() << ",\"eobs\":" << all_el_obs() << "}";
         ledger().take_sub();  // projection must not produce events; drop defensively
         out->line(o.str());
+        for (int q = 1; q <= NV; ++q)
+            if (vstate[q] == 1) last_cap[q] = V(q).capacity();
         return true;
     }
 
@@ -1190,6 +1194,12 @@ struct Driver
         ledger().init(seed + static_cast<unsigned>(h), junk);
         registry().reset();
         out->line("{\"e\":\"begin\",\"h\":" + std::to_string(h) + ",\"junk\":" + std::to_string(junk) + "}");
+        if (hist.random_len > 0)
+        {
+            random_history(hist, prog);
+            finish_history(prog);
+            return;
+        }
         for (const auto& op : hist.ops)
         {
             if (op.n == "Fail")
@@ -1205,11 +1215,218 @@ struct Driver
             std::strncpy(prog->opname, op.n.c_str(), sizeof(prog->opname) - 1);
             if (!run_op(op)) break;
         }
+        finish_history(prog);
+    }
+
+    void finish_history(Progress* prog)
+    {
         prog->step = step + 1;
         prog->v = 0;
         prog->na = 0;
         std::strncpy(prog->opname, "finish", sizeof(prog->opname) - 1);
         finish();
+    }
+
+    // ---------------------------------------------------------------- histories drawn by the driver itself
+    // Independent of the TLA+ generator: operations are drawn from what the public interface shows (size(),
+    // capacity(), get_allocator()) and from the documented preconditions only (size() < capacity(); payload within the
+    // declared budget - the driver remembers the budget it declared and the payload it emplaced).  The recorded
+    // trace is validated by Trace.tla like every other one, so a blind spot shared by generator and oracle would show.
+    struct RandomBook
+    {
+        std::size_t budget = 0;
+        std::vector<std::size_t> payload;  // per element
+        std::size_t total() const
+        {
+            std::size_t s = 0;
+            for (auto x : payload) s += x;
+            return s;
+        }
+    };
+
+    template <std::size_t... I>
+    static std::size_t payload_of(const std::vector<int>& vs, std::index_sequence<I...>)
+    {
+        std::size_t s = 0;
+        ((s += (PL::template Info<I>::kind == VARYING ? static_cast<std::size_t>(vs[I]) * sizeof(typename PL::template T<I>) : 0)),
+         ...);
+        return s;
+    }
+    template <std::size_t... I>
+    static std::size_t payload_unit(std::index_sequence<I...>)
+    {
+        std::size_t s = 0;
+        ((s += (PL::template Info<I>::kind == VARYING ? sizeof(typename PL::template T<I>) : 0)), ...);
+        return s;
+    }
+
+    void random_history(const History& hist, Progress* prog)
+    {
+        unsigned x = hist.random_seed * 2654435761u + 97u;
+        auto rnd = [&](unsigned n) {
+            x = x * 1664525u + 1013904223u;
+            return n ? (x >> 10) % n : 0u;
+        };
+        RandomBook book[NV + 1];
+        const auto seq = std::make_index_sequence<N>{};
+        const std::size_t unit = payload_unit(seq);
+        int tag = 0;
+        for (int it = 0; it < hist.random_len; ++it)
+        {
+            const int v = 1 + static_cast<int>(rnd(2));
+            const int w = 3 - v;
+            Op op;
+            op.v = v;
+            if (vstate[v] == 0)
+            {
+                const unsigned c = rnd(10);
+                if (c == 0)
+                {
+                    op.n = "DefaultConstruct";
+                    book[v] = RandomBook{};
+                }
+                else if (c < 3 && vstate[w] == 1)
+                {
+                    op.n = c == 1 ? "CopyConstruct" : "MoveConstruct";
+                    op.a = {w};
+                }
+                else
+                {
+                    op.n = "Construct";
+                    const int cap = static_cast<int>(rnd(5));
+                    const int bud = static_cast<int>(unit * rnd(7));
+                    op.a = {cap, bud, Cfg::Kind::ae ? 1 : v};
+                    book[v] = RandomBook{};
+                    book[v].budget = unit ? static_cast<std::size_t>(bud) : 0;
+                }
+            }
+            else if (vstate[v] == 2)
+            {
+                const unsigned c = rnd(4);
+                if (c == 0) op.n = "Clear";
+                else if (c == 1) op.n = "Destroy";
+                else if (vstate[w] == 1)
+                {
+                    op.n = c == 2 ? "CopyAssign" : "MoveAssign";
+                    op.a = {w};
+                }
+                else op.n = "Destroy";
+            }
+            else
+            {
+                const std::size_t size = V(v).size(), cap = V(v).capacity();
+                const unsigned c = rnd(16);
+                if (c < 6 && size < cap)
+                {
+                    std::vector<int> vs(N, 0);
+                    for (std::size_t k = 0; k < N; ++k) vs[k] = static_cast<int>(rnd(4));
+                    zero_non_varying(vs, seq);
+                    while (book[v].total() + payload_of(vs, seq) > book[v].budget)
+                    {
+                        bool any = false;
+                        for (auto& q : vs)
+                            if (q > 0)
+                            {
+                                --q;
+                                any = true;
+                                break;
+                            }
+                        if (!any) break;
+                    }
+                    if (book[v].total() + payload_of(vs, seq) > book[v].budget) continue;
+                    op.n = "Emplace";
+                    op.a = {1 + (++tag % 30)};
+                    op.a.insert(op.a.end(), vs.begin(), vs.end());
+                }
+                else if (c == 6 && size > 0) op.n = "PopBack";
+                else if (c == 7 && size > 0)
+                {
+                    op.n = "Erase";
+                    op.a = {static_cast<int>(rnd(static_cast<unsigned>(size)))};
+                }
+                else if (c == 8)
+                {
+                    const int i = static_cast<int>(rnd(static_cast<unsigned>(size) + 1));
+                    const int j = i + static_cast<int>(rnd(static_cast<unsigned>(size) - static_cast<unsigned>(i) + 1));
+                    op.n = "EraseRange";
+                    op.a = {i, j};
+                }
+                else if (c == 9) op.n = "Clear";
+                else if (c == 10 || c == 11)
+                {
+                    op.n = "Reserve";
+                    const int n = static_cast<int>(rnd(static_cast<unsigned>(cap) + 3));
+                    const int b = static_cast<int>(book[v].total() + unit * rnd(5));
+                    op.a = {n, b};
+                }
+                else if (c == 12 && vstate[w] == 1)
+                {
+                    op.n = "CopyAssign";
+                    op.a = {w};
+                }
+                else if (c == 13 && vstate[w] == 1)
+                {
+                    op.n = "MoveAssign";
+                    op.a = {w};
+                }
+                else if (c == 14 && vstate[w] != 0 &&
+                         (Cfg::Kind::pocs || V(v).get_allocator() == V(w).get_allocator()))
+                {
+                    op.n = "Swap";
+                    op.a = {w};
+                }
+                else if (c == 15 && rnd(4) == 0) op.n = "Destroy";
+                else continue;
+            }
+            // bookkeeping of budget / payload (documented preconditions only)
+            const std::size_t cap_before = vstate[v] == 1 ? V(v).capacity() : 0;
+            ++step;
+            prog->step = step;
+            prog->v = op.v;
+            prog->na = static_cast<long>(op.a.size() > 8 ? 8 : op.a.size());
+            for (long q = 0; q < prog->na; ++q) prog->a[q] = op.a[static_cast<std::size_t>(q)];
+            std::strncpy(prog->opname, op.n.c_str(), sizeof(prog->opname) - 1);
+            if (!run_op(op)) break;
+            if (op.n == "Emplace")
+            {
+                std::vector<int> vs(op.a.begin() + 1, op.a.end());
+                book[v].payload.push_back(payload_of(vs, seq));
+            }
+            else if (op.n == "PopBack") book[v].payload.pop_back();
+            else if (op.n == "Erase") book[v].payload.erase(book[v].payload.begin() + op.a[0]);
+            else if (op.n == "EraseRange")
+                book[v].payload.erase(book[v].payload.begin() + op.a[0], book[v].payload.begin() + op.a[1]);
+            else if (op.n == "Clear") book[v].payload.clear();
+            else if (op.n == "Reserve")
+            {
+                if (static_cast<std::size_t>(op.a[0]) > cap_before) book[v].budget = unit ? static_cast<std::size_t>(op.a[1]) : 0;
+            }
+            else if (op.n == "CopyConstruct" || op.n == "CopyAssign" || op.n == "MoveAssign" || op.n == "MoveConstruct")
+            {
+                if (op.a[0] != v)
+                {
+                    const bool same_cap = V(v).capacity() == book_cap(w, op.n);
+                    book[v].payload = book[w].payload;
+                    book[v].budget = same_cap ? book[w].budget : book[w].total();
+                    if (op.n == "MoveAssign" || op.n == "MoveConstruct") book[w] = RandomBook{};
+                }
+            }
+            else if (op.n == "Swap") std::swap(book[v], book[w]);
+        }
+    }
+
+    // capacity of the source of a copy/move as the driver last observed it
+    std::size_t last_cap[NV + 1] = {0, 0, 0, 0};
+    std::size_t book_cap(int w, const std::string& n)
+    {
+        if (n == "CopyConstruct" || n == "CopyAssign") return V(w).capacity();
+        return last_cap[w];
+    }
+
+    template <std::size_t... I>
+    static void zero_non_varying(std::vector<int>& vs, std::index_sequence<I...>)
+    {
+        ((vs[I] = PL::template Info<I>::kind == VARYING ? vs[I] : 0), ...);
     }
 };
 
@@ -1243,6 +1460,10 @@ inline std::vector<History> read_plan(const char* path)
             int x;
             while (is >> x) op.a.push_back(x);
             cur.ops.push_back(op);
+        }
+        else if (c == 'R')
+        {
+            is >> cur.random_len >> cur.random_seed;
         }
         else if (c == 'E')
         {
